@@ -42,7 +42,8 @@ KNOWN_DEFECTS = {
     "D3_clone_joint_empty_array_padding": True,
 }
 
-ELEMS = {"e1": (1, 1), "e3": (3, 1), "e4": (4, 4), "e8": (8, 8), "e12": (12, 4), "e16": (16, 16)}
+# e8n: the same as e8 with noexcept constructors (the helpers' "cannot throw" paths); it never throws
+ELEMS = {"e1": (1, 1), "e3": (3, 1), "e4": (4, 4), "e8": (8, 8), "e12": (12, 4), "e16": (16, 16), "e8n": (8, 8)}
 ETS = list(ELEMS)
 ALLOCS = ["leaf", "pool", "stack"]
 F_ABSENT, F_SIZE, F_VALUE, F_ILIST, F_RANGE, F_COPY, F_MOVE = -1, 0, 1, 2, 3, 4, 5
